@@ -239,4 +239,9 @@ def chunksOf {α : Type} (n : Nat) : Nat → List α → List (List α)
 @[inline] def charFromU32Unchecked {ε : Type} (n : Nat) : Ctl ε Nat :=
   if n < 0xD800 ∨ (0xE000 ≤ n ∧ n ≤ 0x10FFFF) then .val n else .ub
 
+/-- `CStr::from_bytes_with_nul_unchecked`: undefined behaviour unless the bytes end with a nul and contain no
+    other nul.  A `&CStr` is modelled as its bytes including the terminating nul. -/
+@[inline] def cstrFromBytesWithNulUnchecked {ε : Type} (b : List Nat) : Ctl ε (List Nat) :=
+  if b.getLast? = some 0 ∧ ¬ (0 ∈ b.dropLast) then .val b else .ub
+
 end Rs
